@@ -605,7 +605,7 @@ fn conc_props(tier: &str, seed: u64, out: &str) {
         if !quick {
             // three threads, and two calls per thread
             let mut rng = Rng::new(seed.wrapping_mul(67));
-            for _ in 0..40 {
+            for _ in 0..12 {
                 let pick = |rng: &mut Rng| -> String { if rng.chance(75) { muts[rng.below(muts.len())].to_string() } else { reads[rng.below(reads.len())].to_string() } };
                 let t3 = format!("{}|{}|{}", pick(&mut rng), pick(&mut rng), pick(&mut rng));
                 scenarios.push((format!("{iname}:{t3}"), init.clone(), t3));
@@ -614,7 +614,7 @@ fn conc_props(tier: &str, seed: u64, out: &str) {
             }
         }
     }
-    let cap = if quick { 3000 } else { 30000 };
+    let cap = if quick { 3000 } else { 6000 };
     let mut total = 0usize;
     let mut per_fl: BTreeMap<String, usize> = BTreeMap::new();
     for fl in ["sdi", "sun"] {
